@@ -106,6 +106,36 @@ Definition oracle_tip (all : list string) (p : string * nat) : option string :=
 
 Definition distinct_sorted (l : list string) : bool := negb (has_dup_sorted l).
 
+(** tables observed on the Go tree (after ReinitIndexes, or as left by an editing operation)
+    against the model and the oracle for the tree [t] *)
+Definition judge_tables (tag : string) (t : utree) (gerr : string) (o : sexp) : verdict :=
+  match index_tables t with
+  | Err m => if String.eqb gerr "" then VCorr ("model refuses (" ++ m ++ "), implementation succeeds")
+             else VOk false (tag ++ ":err")
+  | Ok tb =>
+    if negb (String.eqb gerr "") then VCorr ("implementation refuses: " ++ gerr) else
+    match (x <- get "tips" o ;; dec_list (dec_pair dec_string dec_nat) x),
+          (x <- get "edges" o ;; dec_list dec_grow x) with
+    | Some gt, Some ge =>
+      let all := ssort (leaves t) in
+      let orc := first_some [
+        (if Nat.eqb (length ge) (length (edges t)) then None else Some "number of branches");
+        first_diff (oracle_row all) 0 (edges t) ge;
+        first_some (map (oracle_tip all) gt) ] in
+      match orc with
+      | Some m => VOracle m
+      | None =>
+        match first_some [
+           first_diff (fun a b => if Nat.eqb a (snd b) then None else Some "tip id") 0 (tb_tipids tb) gt;
+           first_diff row_diff 0 (tb_rows tb) ge ] with
+        | Some m => VCorr m
+        | None => VOk true tag
+        end
+      end
+    | _, _ => VBad "undecodable tables"
+    end
+  end.
+
 Definition judge_index (c o : sexp) : verdict :=
   match get_tree "tree" c, get_string "panic" o with
   | None, _ => VBad "no tree"
@@ -117,33 +147,31 @@ Definition judge_index (c o : sexp) : verdict :=
   | Some t, None =>
     match get_string "err" o with
     | None => VBad "no err"
-    | Some gerr =>
-      match index_tables t with
-      | Err m => if String.eqb gerr "" then VCorr ("model refuses (" ++ m ++ "), implementation succeeds")
-                 else VOk false "index:err"
-      | Ok tb =>
-        if negb (String.eqb gerr "") then VCorr ("implementation refuses: " ++ gerr) else
-        match (x <- get "tips" o ;; dec_list (dec_pair dec_string dec_nat) x),
-              (x <- get "edges" o ;; dec_list dec_grow x) with
-        | Some gt, Some ge =>
-          let all := ssort (leaves t) in
-          let orc := first_some [
-            (if Nat.eqb (length ge) (length (edges t)) then None else Some "number of branches");
-            first_diff (oracle_row all) 0 (edges t) ge;
-            first_some (map (oracle_tip all) gt) ] in
-          match orc with
-          | Some m => VOracle m
-          | None =>
-            match first_some [
-               first_diff (fun a b => if Nat.eqb a (snd b) then None else Some "tip id") 0 (tb_tipids tb) gt;
-               first_diff row_diff 0 (tb_rows tb) ge ] with
-            | Some m => VCorr m
-            | None => VOk true "index"
-            end
-          end
-        | _, _ => VBad "undecodable tables"
-        end
+    | Some gerr => judge_tables "index" t gerr o
+    end
+  end.
+
+(** * edit: the tables left by an editing operation (its own Reinit* call) against the tree it
+    produced.  case ((kind edit) (tree T) (op name) ...)
+    obs ((operr msg) (tree T') (audit (...)) (tips ...) (edges ...)).  Failures of the operation
+    itself (error, panic) belong to other properties. *)
+Definition judge_edit (c o : sexp) : verdict :=
+  match get_string "panic" o with
+  | Some _ => VOk false "edit:panic"
+  | None =>
+    match get_string "operr" o, get_tree "tree" o with
+    | Some operr, Some g =>
+      if negb (String.eqb operr "") then VOk false "edit:operr" else
+      match audit_ok o with
+      | Some m => VOk false "edit:audit"
+      | None =>
+        if negb (wf g && Nat.leb 2 (degree g) && distinct_sorted (ssort (leaves g))) then VOk false "edit:degenerate"
+        else match get_string "err" o with
+             | Some gerr => judge_tables "edit" g gerr o
+             | None => VBad "no tables in edit observation"
+             end
       end
+    | _, _ => VBad "undecodable edit observation"
     end
   end.
 
@@ -482,25 +510,18 @@ Definition eres_eqb (a b : eres) : bool :=
   | _, _ => false
   end.
 
-(** model run *)
-Fixpoint erun (need : nat -> N -> bool) (m : eindex) (ops : list (ekey * option (option (Z * Q)))) : option (list eres * eindex) :=
-  match ops with
-  | [] => Some ([], m)
-  | (k, Some (Some (cn, ln))) :: r =>
-    match ei_put need m k cn ln with
-    | None => None
-    | Some m' => match erun need m' r with Some (rs, mf) => Some (GOk :: rs, mf) | None => None end
-    end
-  | (k, Some None) :: r =>
-    match ei_add need m k with
-    | None => None
-    | Some m' => match erun need m' r with Some (rs, mf) => Some (GOk :: rs, mf) | None => None end
-    end
-  | (k, None) :: r =>
-    match ei_value m k with
-    | None => None
-    | Some x => match erun need m r with Some (rs, mf) => Some (GVal x :: rs, mf) | None => None end
-    end
+(** model run: Model.EdgeIndex.ei_run *)
+Definition to_eiop (x : ekey * option (option (Z * Q))) : eiop :=
+  match x with
+  | (k, Some (Some (cn, ln))) => EIPut k cn ln
+  | (k, Some None) => EIAdd k
+  | (k, None) => EIValue k
+  end.
+Definition of_eires (r : eires) : gres (Z * Q) := match r with EIOk => GOk | EIVal x => GVal x end.
+Definition erun (need : nat -> N -> bool) (m : eindex) (ops : list (ekey * option (option (Z * Q)))) : option (list eres * eindex) :=
+  match ei_run need m (map to_eiop ops) with
+  | Some (rs, mf) => Some (map of_eires rs, mf)
+  | None => None
   end.
 
 (** specification: association list keyed by the canonical side of the split *)
@@ -604,6 +625,7 @@ Definition judge (c o : sexp) : verdict :=
   match get_string "kind" c with
   | Some k =>
     if String.eqb k "index" then judge_index c o
+    else if String.eqb k "edit" then judge_edit c o
     else if String.eqb k "samebip" then judge_samebip c o
     else if String.eqb k "edgeindex" then judge_edgeindex c o
     else if String.eqb k "hashmap" then judge_hashmap c o
